@@ -3,8 +3,8 @@
 // (X chosen through crypto/rand.Reader), the REAL server-side validate and
 // handleUpload judge that report and single-item perturbations of it, and the
 // REAL viewer (summary, newCounterFile) describes every file; a second
-// uploader run at X = 0 on each single file gives what the uploader would
-// keep at the most permissive X.
+// uploader run at X = 0 on the whole week gives what the uploader would keep
+// at the most permissive X.
 //
 // validate/handleUpload live in package main of the godev module and the
 // viewer in an internal package of cmd/gotelemetry, so they run in two helper
@@ -329,14 +329,26 @@ func caseApproval() {
 	BigValues = false
 	nf := 1 + rnd.Intn(3)
 	var files []fileSpec
-	for i := 0; i < nf; i++ {
-		b := Pick(rnd, builds)
-		fs := fileSpec{id: b, counts: GenCounts(rnd, ucfg, b.Program, 7)}
-		if rnd.Chance(4) {
-			fs.omit = 1 + rnd.Intn(5)
-			out.Note("meta-line-omitted")
+	if rnd.Chance(35) {
+		// several programs recording items of the same names, approved differently per program
+		var shared []FileSpec
+		ucfg, shared = GenSharedNamesWeek(rnd, x)
+		ucfg.SampleRate = Pick(rnd, []float64{0, 1})
+		for _, f := range shared {
+			files = append(files, fileSpec{id: f.ID, omit: f.Omit, counts: f.Counts})
 		}
-		files = append(files, fs)
+		nf = len(files)
+		out.Note("shared-names-week")
+	} else {
+		for i := 0; i < nf; i++ {
+			b := Pick(rnd, builds)
+			fs := fileSpec{id: b, counts: GenCounts(rnd, ucfg, b.Program, 7)}
+			if rnd.Chance(4) {
+				fs.omit = 1 + rnd.Intn(5)
+				out.Note("meta-line-omitted")
+			}
+			files = append(files, fs)
+		}
 	}
 	f := []string{"approval"}
 	f = append(f, WConfig(ucfg)...)
@@ -382,8 +394,32 @@ func caseApproval() {
 		f = append(f, res.Verdict, I(int64(res.Status)), B(res.Semver), B(res.Stored))
 		out.Note("variant-" + what + "-" + res.Verdict)
 	}
-	// the viewer on every file, and the uploader at X = 0 on that file alone
-	for i, pf := range parsed {
+	// the uploader at X = 0 (the most permissive X) on the whole week
+	anyCount := false
+	for _, pf := range parsed {
+		if len(pf.Count) > 0 {
+			anyCount = true
+		}
+	}
+	if anyCount {
+		b0, _ := runUploader(ucfg, cfgVersion, 0, files)
+		if b0 == nil {
+			panic("no upload report at X = 0")
+		}
+		var r0 telemetry.Report
+		if err := json.Unmarshal(b0, &r0); err != nil {
+			panic(err)
+		}
+		if r0.X != 0 {
+			panic("X = 0 was not honoured")
+		}
+		f = append(f, "some")
+		f = append(f, WReport(&r0)...)
+	} else {
+		f = append(f, "none")
+	}
+	// the viewer on every file
+	for _, pf := range parsed {
 		req := map[string]any{"Cfg": ucfg, "Meta": pf.Meta}
 		var cnt []map[string]any
 		for k, v := range pf.Count {
@@ -414,23 +450,6 @@ func caseApproval() {
 		f = append(f, I(int64(len(rows))))
 		for _, r := range rows {
 			f = append(f, HS(r.k), B(r.a))
-		}
-		if len(pf.Count) > 0 {
-			b0, _ := runUploader(ucfg, cfgVersion, 0, files[i:i+1])
-			if b0 == nil {
-				panic("no upload report at X = 0")
-			}
-			var r0 telemetry.Report
-			if err := json.Unmarshal(b0, &r0); err != nil {
-				panic(err)
-			}
-			if r0.X != 0 {
-				panic("X = 0 was not honoured")
-			}
-			f = append(f, "some")
-			f = append(f, WReport(&r0)...)
-		} else {
-			f = append(f, "none")
 		}
 	}
 	out.Note(fmt.Sprintf("files-%d", nf))
